@@ -1,8 +1,9 @@
 """C08 — the table manager's log records exactly what was played, independently of thread timing."""
 TITLE = "The table manager's log records exactly what was played"
-LEAN_TARGETS = ['BridgeVerif.Props.C08', 'BridgeVerif.Translated.ThreadsMainA', 'BridgeVerif.Translated.ThreadsMainB', 'BridgeVerif.Translated.ThreadsMainC', 'BridgeVerif.Translated.ThreadsMainD']
-AUDIT_PROPS = ['C08', 'Translated.ThreadsMainA', 'Translated.ThreadsMainB', 'Translated.ThreadsMainC', 'Translated.ThreadsMainD']
-REQUIRED = ['Translated.ThreadsMainD.translated_main_thread_is_session_program', 'Translated.ThreadsMainD.translated_main_thread_writes_the_session_log', 'Translated.ThreadsMainD.session_boards_parse', 'Translated.ThreadsMainD.translated_main_thread_is_session_program_protocol', 
+LEAN_TARGETS = ['BridgeVerif.Props.C08', 'BridgeVerif.Translated.ThreadsMainA', 'BridgeVerif.Translated.ThreadsMainB', 'BridgeVerif.Translated.ThreadsMainC', 'BridgeVerif.Translated.ThreadsMainD', 'BridgeVerif.Translated.ThreadsMainE']
+AUDIT_PROPS = ['C08', 'Translated.ThreadsMainA', 'Translated.ThreadsMainB', 'Translated.ThreadsMainC', 'Translated.ThreadsMainD', 'Translated.ThreadsMainE', 'Translated.MsgParsersA', 'Translated.MsgParsersC', 'Translated.MsgParsersD']
+REQUIRED = ['Translated.ThreadsMainE.translated_main_thread_is_session_program_ascii', 'Translated.MsgParsersA.parse_card_translated', 'Translated.MsgParsersD.parse_bid_translated_ascii',
+            'Translated.ThreadsMainD.translated_main_thread_is_session_program', 'Translated.ThreadsMainD.translated_main_thread_writes_the_session_log', 'Translated.ThreadsMainD.session_boards_parse', 'Translated.ThreadsMainD.translated_main_thread_is_session_program_protocol', 
             'Translated.ThreadsMainC.main_deal_translated_dict', 'Translated.ThreadsMainC.main_board_translated', 'Translated.ThreadsMainC.main_boards_translated', 'Translated.ThreadsMainC.main_run_translated', 
             'Translated.ThreadsMainB.main_trick_card_translated', 'Translated.ThreadsMainB.main_trick_translated', 'Translated.ThreadsMainB.main_playing_translated', 
             'log_is_session_spec', 'log_independent_of_schedule', 'scores_are_opposite', 'passed_out_record_shape',
